@@ -255,6 +255,50 @@ def correspond(ctx):
         elif image(r1) != image(r2) or image(r1) != image(refr):
             ctx.violation('c09:history-dependent:cp', 'cp with a start point kept by the caller: a repeated call differs from the first one', casek)
 
+    # (d') the given tolerances are the ones applied ----------------------------------
+    # planted cone programs of the three kinds with per-call tolerances that all differ: the reported residuals of the returned status
+    # must lie within the feastol / abstol / reltol that were passed (the fields themselves are tied to recomputation by C01-C03), and the
+    # outcome of an infeasible or unbounded problem must not depend on abstol / reltol (their certificates are accepted on feastol alone)
+    ntol = 24 if ctx.quick() else 500
+    def solve_planted(pr, kw, o):
+        c_, G_, h_, A_, b_, P_ = problems.to_cvx(cvxopt, pr)
+        if pr.P is not None: return quiet(solvers.coneqp, P_, c_, G_, h_, pr.dims, A_, b_, options=o, **kw)
+        return quiet(solvers.conelp, c_, G_, h_, pr.dims, A_, b_, options=o, **kw)
+    for it in range(ntol):
+        kind = ['optimal', 'pinf', 'dinf', 'optimal'][it % 4]
+        qp_ = kind == 'optimal' and it % 8 == 3
+        pr = problems.planted_conelp(rng, kind, P_rank=(rng.randint(0, 3) if qp_ else None))
+        ft = rng.choice([1e-5, 1e-6, 1e-8]); at = rng.choice([1e-2, 1e-4, 1e-9, 0.0]); rt = rng.choice([1e-3, 1e-5, 1e-9])
+        if at == ft or rt == ft: at = at * 3
+        o = {'show_progress': False, 'feastol': ft, 'abstol': at, 'reltol': rt}
+        casek = {'entry': 'coneqp' if qp_ else 'conelp', 'kind': kind, 'options': dict(o), 'dims': pr.dims, 'c': pr.c, 'G': pr.G, 'h': pr.h, 'A': pr.A, 'b': pr.b, 'P': pr.P}
+        try: r = solve_planted(pr, {}, o)
+        except (ValueError, ArithmeticError): continue
+        evals += 1; distinct.add(('tol', it))
+        st = r['status']; tolr = 1.0 + 1e-9
+        def over(field, lim):
+            v = r.get(field)
+            return v is not None and v > lim * tolr
+        badf = None
+        if st == 'optimal':
+            if over('primal infeasibility', ft): badf = ('primal infeasibility', ft)
+            elif over('dual infeasibility', ft): badf = ('dual infeasibility', ft)
+            elif not (r['gap'] <= at * tolr or (r['relative gap'] is not None and r['relative gap'] <= rt * tolr)): badf = ('gap', at)
+        elif st == 'primal infeasible' and over('residual as primal infeasibility certificate', ft): badf = ('residual as primal infeasibility certificate', ft)
+        elif st == 'dual infeasible' and over('residual as dual infeasibility certificate', ft): badf = ('residual as dual infeasibility certificate', ft)
+        if badf:
+            ctx.violation('c09:tolerance-not-applied:%s:%s' % (casek['entry'], st.replace(' ', '-')),
+                          "%s returned %r with '%s' = %r although options %r were given (limit %g)" % (casek['entry'], st, badf[0], r.get(badf[0]), o, badf[1]), casek)
+        if kind != 'optimal' and st in ('primal infeasible', 'dual infeasible'):
+            o2 = dict(o, abstol=(1e-9 if at > 1e-6 else 1e-2), reltol=(1e-9 if rt > 1e-6 else 1e-3))
+            try: r2 = solve_planted(pr, {}, o2)
+            except (ValueError, ArithmeticError): continue
+            evals += 1
+            if (r2['status'], r2['iterations']) != (st, r['iterations']):
+                ctx.violation('c09:certificate-depends-on-gap-tolerance:%s' % st.replace(' ', '-'),
+                              '%s: %r after %d iterations with %r, but %r after %d iterations with %r (only abstol / reltol differ; the infeasibility tests use feastol)'
+                              % (casek['entry'], st, r['iterations'], o, r2['status'], r2['iterations'], o2), dict(casek, options2=o2))
+
     # (e) threads -------------------------------------------------------------
     rounds = 5 if ctx.quick() else 100
     bad_threads = 0
